@@ -42,11 +42,18 @@ ASSUMPTIONS = ["vp/dbparse.py + vp/formula.py read SURFACE_MASTER_SPECIES / SURF
                "accumulated along the as-written reactions; the diffuse-layer charge is the Grahame (mixed-electrolyte) expression; "
                "when the bulk solution is not electroneutral (surface charge not compensated) the textbook expression is not defined "
                "uniquely: the value must lie between the expression without and with a monovalent ion completing electroneutrality",
-               "the Gouy-Chapman clause is not asserted for -diffuse_layer (Borkovec-Westall integration, a different relation) nor for "
-               "CD-MUSIC with -donnan (plane-2 relation undocumented); there the dl_balance clause closes the charge balance",
-               "dl_balance tolerance derived from the solver's own criterion: the layer composition g_i is iterated to |dg| <= tol_g "
-               "(tol_g = 1e-8 Borkovec-Westall, = convergence_tolerance Donnan) AFTER the last charge-balance solve, hence "
-               "|sum z n_DL + q| <= 1e-8 |q| + tol_g * sum |z_i| n_i max(1, |g_i|) + 10 * convergence_tolerance",
+               "-diffuse_layer (Borkovec-Westall): the layer is a numerical integration of the Poisson-Boltzmann profile, whose charge is "
+               "the Grahame charge of the mixed bulk electrolyte; its integration error is not tied to a documented criterion (measured "
+               "on the unchanged tree: <= 3e-4 above 10 mV, several % below 1 mV), so only a coarse consistency clause is asserted "
+               "(1e-2 relative, |psi| >= 10 mV, electroneutral bulk, not with -only_counter_ions); CD-MUSIC with -donnan: no relation "
+               "for plane 2 is documented (see the report: it follows Gouy-Chapman only for symmetric electrolytes), none asserted; "
+               "in both cases the dl_balance clause closes the charge balance",
+               "dl_balance and the Donnan Gouy-Chapman clause: the layer composition g_i is renewed AFTER the last charge-balance solve "
+               "and accepted when |dg_i| <= convergence_tolerance (relative for |g| >= 1), and the charge balance itself is accepted at "
+               "convergence_tolerance equivalents, hence |sum z n_DL + q| <= 1e-8 |q| + convergence_tolerance * sum |z_i| n_i max(1, |g_i|) "
+               "+ 10 * convergence_tolerance (for Gouy-Chapman x F/area); n_i, g_i from the reported bulk and layer amounts",
+               "dl_balance compares the layer's ion CONTENT (EDL_SPECIES) with the surface charge; content and excess differ by (layer "
+               "water) x (bulk charge imbalance), so the clause is asserted only when that product is below a tenth of the tolerance",
                "inputs set KNOBS -convergence_tolerance 1e-12; absolute floors: 1e-14 mol (site balance), 1e-11 C/m2 (charge laws)"]
 TECHNIQUE = "property-based testing (Hypothesis) against an independent reference evaluation of database text and textbook EDL relations"
 LEVEL_TEXT = ("Exploration: thousands of generated surface calculations per run over six electrostatic model classes; every site balance, "
@@ -54,7 +61,7 @@ LEVEL_TEXT = ("Exploration: thousands of generated surface calculations per run 
               "every surface in every row is re-evaluated in Python. Not a proof: compositions, surfaces and options are sampled.")
 FLOORS = {"quick": 300, "thorough": 3000}
 SHARDS = {"quick": 4, "thorough": 4}      # DEVELOPMENT (shared machine): set back to 8/16
-BUDGET = {"quick": 260, "thorough": 1500, "replay": 1}
+BUDGET = {"quick": 500, "thorough": 1500, "replay": 1}
 
 DATABASES = [("phreeqc.dat", 3), ("wateq4f.dat", 2), ("minteq.v4.dat", 2)]
 MODELS = ["no_edl", "ddl", "ddl", "dl_bw", "donnan", "donnan", "ccm", "cdmusic", "cdmusic", "cdmusic_donnan"]
@@ -62,6 +69,7 @@ ABSENT = -99.0
 TOL_REL = 1e-8
 TOL_MA = 4e-9                 # log10 units (= 1e-8 relative in the activity product)
 CONV_TOL = 1e-12
+TOL_BW_GRAHAME = 1e-2
 TOL_G = CONV_TOL            # the diffuse-layer composition g is iterated to |dg| <= convergence_tolerance
 # sorbing elements entered in SOLUTION (label -> formal charge used only for choosing the charge-balancing ion)
 CATIONS = ["Ca", "Mg", "Sr", "Ba", "Zn", "Cd", "Cu", "Pb", "Ni", "Co", "Be"]
@@ -359,6 +367,7 @@ def case_st(draw):
     rel = None
     if related:
         rel = {"kind": draw(st.sampled_from(["phase", "phase", "kinetic"])), "phase": draw(st.sampled_from(RELATED_PHASES[dbn]))}
+    excl = None
     surfs = []
     units = draw(st.sampled_from(["absolute", "absolute", "density"])) if not related else "absolute"
     for k, kd in enumerate(kinds):
@@ -418,6 +427,8 @@ def case_st(draw):
     if surface.get("dl") and draw(st.integers(0, 3)) == 0:
         surface["oci"] = True
     case = {"db": dbn, "defs": defs, "sol": sol, "surface": surface}
+    if excl:
+        case["excl"] = excl
     if rel:
         case["rel"] = rel
         m0 = draw(cg.logu(1e-4, 1e-1, 3))
@@ -425,7 +436,9 @@ def case_st(draw):
         if rel["kind"] == "phase":
             rel["si"] = draw(st.sampled_from([0.0, 0.0, 0.5, -0.5]))
         else:
-            rel["rate"] = draw(cg.logu(1e-9, 1e-6, 2)) * draw(st.sampled_from([1.0, 1.0, -1.0]))
+            # dissolution only: the generated solutions do not hold the reactant's elements, a negative rate (growth) would ask for
+            # negative concentrations and the rate integration never ends
+            rel["rate"] = draw(cg.logu(1e-9, 1e-6, 2))
             rel["time"] = draw(st.sampled_from([100.0, 1000.0, 3600.0]))
             rel["steps"] = draw(st.integers(1, 3))
     if draw(st.integers(0, 2)) == 0 and not (rel and rel["kind"] == "kinetic"):
@@ -724,8 +737,24 @@ def check_case(case, ctx):
         classes.append("T!=25")
     if stats["maxpsi"] > 0.005:
         classes.append("|psi|>5mV")
-    if any(len(s["species"]) and any("(" in sp["eq"].split("=")[1] for sp in s["species"]) for d in case.get("defs", []) for s in d["sites"]):
-        classes.append("bidentate_defined")
+    feats = set()
+    for d in case.get("defs", []):
+        for s in d["sites"]:
+            for sp in s["species"]:
+                lhs, rhs = sp["eq"].split("=")
+                if lhs.strip().startswith("2"):
+                    feats.add("user:bidentate_species")
+                if sp.get("dh") is not None:
+                    feats.add("user:delta_h")
+                if sp.get("cd") and (sp["cd"][3] or sp["cd"][4]):
+                    feats.add("user:cd_music_5_number_form")
+                if sp.get("cd") and sp["cd"][2]:
+                    feats.add("user:cd_music_plane2_charge")
+                if dbparse.parse_equation(sp["eq"])[0][0][1] != F.canonical(s["master"]):
+                    feats.add("user:species_from_non_master_species")
+    classes += sorted(feats)
+    if case.get("excl"):
+        classes.append(case["excl"])
     for e in sorted(stats["ev"]):
         classes.append(e)
     for k in ("eq", "bal", "cp", "dl"):
@@ -831,7 +860,6 @@ def check_row(case, M, v, dls, state, kth, stats, where):
     if model == "no_edl":
         return
     MU, EPS = v["MU"], v["EPS"]
-    aq_ions = None
     for su in S["surfs"]:
         n = su["name"]
         sites = [s["site"] for s in su["sites"]]
@@ -883,6 +911,22 @@ def check_row(case, M, v, dls, state, kth, stats, where):
             cmp("sigma = C psi", sig[0], edl.ccm_sigma(su["cap"][0], psi[n][0]))
         elif model == "ddl":
             cmp("Gouy-Chapman", sig[0], edl.gouy_chapman_sigma(psi[n][0], MU, EPS, TK))
+        elif model == "dl_bw":
+            # Borkovec-Westall layer: the excesses are numerical integrals of the Poisson-Boltzmann profile whose total charge is the
+            # Grahame charge of the mixed electrolyte.  The integration error is not tied to a documented criterion (measured on the
+            # unchanged tree: <= 3e-4 above 10 mV, several % below 1 mV), so this is only a coarse consistency clause (1e-2, >= 10 mV).
+            if not S.get("oci") and abs(psi[n][0]) >= 0.010:
+                ions = aqueous_ions(M, v)
+                imb = sum(z * c for z, c in ions)
+                pos = sum(abs(z) * c for z, c in ions)
+                g0 = edl.grahame_sigma(psi[n][0], ions, EPS, TK)
+                if abs(imb) <= 1e-9 * pos and g0 == g0:
+                    stats["cp"] += 1
+                    stats["ev"].add("bw:grahame_coarse_clause_evaluated")
+                    if abs(sig[0] - g0) > TOL_BW_GRAHAME * max(abs(sig[0]), abs(g0)) + floor:
+                        raise Violation("charge_potential", "%s: surface %s (-diffuse_layer): sigma from the species %r C/m2, Grahame charge "
+                                        "of the bulk electrolyte at psi = %r V: %r C/m2 (rel. diff %.3g > %g)"
+                                        % (where, n, sig[0], psi[n][0], g0, (sig[0] - g0) / max(abs(sig[0]), abs(g0)), TOL_BW_GRAHAME))
         elif model == "donnan":
             # (the charge balance of the solver is written in equivalents here: its absolute criterion scales with F/area)
             cmp("Gouy-Chapman", sig[0], edl.gouy_chapman_sigma(psi[n][0], MU, EPS, TK), extra=dl_abs * edl.F / area)
@@ -891,12 +935,7 @@ def check_row(case, M, v, dls, state, kth, stats, where):
             cmp("sigma0 = C1 (psi0 - psi1)", sig[0], c1 * (psi[n][0] - psi[n][1]))
             cmp("sigma0 + sigma1 = C2 (psi1 - psi2)", sig[0] + sig[1], c2 * (psi[n][1] - psi[n][2]))
             if not dl:
-                if aq_ions is None:
-                    aq_ions = []
-                    for nme in meta_aq(M, v):
-                        z = F.charge(nme)
-                        if z != 0:
-                            aq_ions.append((z, v["MOL:" + nme]))
+                aq_ions = aqueous_ions(M, v)
                 tot = sig[0] + sig[1] + sig[2]
                 g0 = edl.grahame_sigma(psi[n][2], aq_ions, EPS, TK)
                 imb = sum(z * c for z, c in aq_ions)
@@ -936,8 +975,15 @@ def check_row(case, M, v, dls, state, kth, stats, where):
                                        dlq + qs, tol))
 
 
-def meta_aq(M, v):
-    return [k[4:] for k in v if k.startswith("MOL:") and k[4:] not in M.sp_table]
+def aqueous_ions(M, v):
+    """[(charge, molality)] of every charged aqueous species of the database that can form from the elements of the case"""
+    out = []
+    for k in v:
+        if k.startswith("MOL:") and k[4:] not in M.sp_table:
+            z = F.charge(k[4:])
+            if z != 0 and isinstance(v[k], (int, float)) and v[k] > 0:
+                out.append((z, v[k]))
+    return out
 
 
 def run(ctx):
